@@ -274,6 +274,13 @@ def family_items(name, tier):
     if name == 'three-tiny':
         return list(F.compose(3, F.TINY_LEAVES, ops=['^', '+', '&', '='],
                               funcs=('SUM',)))
+    if name == 'chains':
+        leaves = [('ref', 'A1'), ('num', '2'), ('ref', 'B1'),
+                  ('ref', '$C$3'), ('num', '1.5')]
+        out = list(F.chains(3, leaves))
+        if tier == 'thorough':
+            out += list(F.chains(4, leaves))
+        return out
     if name == 'names':
         return (list(F.NAME_LEAVES) + list(F.trees_one(F.NAME_LEAVES)) +
                 list(F.calls(['IF', 'SUM'], F.NAME_LEAVES, 3)))
@@ -316,6 +323,7 @@ FAMILIES = {
     'leaf': 'exhaustive', 'one-full': 'few', 'calls-full': 'few',
     'calls-3': 'few', 'small-exh': 'exhaustive', 'two-reduced': 'few',
     'paren': 'few', 'strings': 'single', 'names': 'few', 'twins': 'single',
+    'chains': 'few',
 }
 _ITEMS = {}
 
